@@ -110,21 +110,58 @@ theorem upd_other {α : Type} (f : Nat → α) (i j : Nat) (x : α) (h : j ≠ i
 
 /-- not yet entered or waiting for its release -/
 def beforeRetire : IPc → Bool
-  | .unreg | .pending | .retire => true
-  | _ => false
+  | .unreg => true
+  | .pending => true
+  | .retire => true
+  | .load => false
+  | .rmw => false
+  | .setOut _ => false
+  | .dec _ => false
+  | .dtorRel _ => false
+  | .dtorSet => false
+  | .boom => false
+  | .dboom => false
+  | .done => false
 
 /-- has work to do on its own -/
 def active : IPc → Bool
-  | .unreg | .pending | .done => false
-  | _ => true
+  | .unreg => false
+  | .pending => false
+  | .retire => true
+  | .load => true
+  | .rmw => true
+  | .setOut _ => true
+  | .dec _ => true
+  | .dtorRel _ => true
+  | .dtorSet => true
+  | .boom => true
+  | .dboom => true
+  | .done => false
 
 def isSetOut : IPc → Bool
+  | .unreg => false
+  | .pending => false
+  | .retire => false
+  | .load => false
+  | .rmw => false
   | .setOut _ => true
-  | _ => false
+  | .dec _ => false
+  | .dtorRel _ => false
+  | .dtorSet => false
+  | .boom => false
+  | .dboom => false
+  | .done => false
+
+theorem done_of_not_holding {p : IPc} (h1 : holding p = false) (h2 : inDtor p = false) : p = .done := by
+  cases p <;> simp_all [holding, inDtor]
 
 def Strat.isAllVec : Strat → Bool
   | .allVec _ => true
-  | _ => false
+  | .allTuple _ => false
+  | .join _ => false
+  | .anyNone => false
+  | .anyFF => false
+  | .anyLF => false
 
 /-- strategies without any atomic of their own: everything happens in the destructor -/
 def Strat.noneKind : Strat → Bool
@@ -139,7 +176,7 @@ def Strat.allFF : Strat → Bool
 def Strat.hasWord (st : Strat) : Bool := st.usesFlag || st = .anyFF || st = .anyLF
 
 theorem afterRetire_cases (st : Strat) (r : Res) :
-    afterRetire st r = .dec false ∨ afterRetire st r = .dec true ∨
+    ((afterRetire st r = .dec false ∨ afterRetire st r = .dec true) ∧ (st.hasWord = true → st.allFF = true ∧ ok r = true)) ∨
     (afterRetire st r = .load ∧ st.hasWord = true ∧ (st.allFF = true → ok r = false)) := by
   cases st with
   | allVec b => cases b <;> simp [afterRetire, Strat.hasWord, Strat.usesFlag, Strat.allFF] <;> split <;> simp_all
@@ -162,6 +199,69 @@ theorem lose_cases (st : Strat) : (lose st = .boom ∧ st = .allTuple true) ∨ 
   | anyNone => simp [lose]
   | anyFF => simp [lose]
   | anyLF => simp [lose]
+
+theorem dtorStart_cases (st : Strat) (pv : Bool) :
+    (dtorStart st pv = some (.dtorRel 0) ∧ st.isAllVec = true) ∨
+    (dtorStart st pv = some .dtorSet ∧ st.isAllVec = false ∧ (st.noneKind = true ∨ pv = true)) ∨
+    (dtorStart st pv = none ∧ st.isAllVec = false ∧ st.noneKind = false ∧ pv = false) := by
+  cases st with
+  | allVec b => simp [dtorStart, Strat.isAllVec]
+  | allTuple b => cases b <;> cases pv <;> simp [dtorStart, Strat.isAllVec, Strat.noneKind]
+  | join b => cases b <;> cases pv <;> simp [dtorStart, Strat.isAllVec, Strat.noneKind]
+  | anyNone => cases pv <;> simp [dtorStart, Strat.isAllVec, Strat.noneKind]
+  | anyFF => cases pv <;> simp [dtorStart, Strat.isAllVec, Strat.noneKind]
+  | anyLF => cases pv <;> simp [dtorStart, Strat.isAllVec, Strat.noneKind]
+
+theorem cnt_updb (f : Nat → Bool) (i : Nat) (b : Bool) (n : Nat) (hi : i < n) :
+    cnt (upd f i b) n + (if f i = true then 1 else 0) = cnt f n + (if b = true then 1 else 0) := by
+  have := cnt_upd f i b n hi
+  have h2 : cnt (upd f i b) n = cnt (fun j => if j = i then b else f j) n := cnt_congr (fun j _ => rfl)
+  rw [h2]; simpa using this
+
+/-- facts about the strategy classes -/
+theorem Strat.usesFlag_cases {st : Strat} (h : st.usesFlag = true) :
+    st.hasWord = true ∧ st ≠ .anyFF ∧ st ≠ .anyLF ∧ ((st.allFF = true ∧ st ≠ .anyNone) ∨ (st = .anyNone ∧ st.allFF = false)) := by
+  cases st with
+  | allVec b => cases b <;> simp_all [Strat.usesFlag, Strat.hasWord, Strat.allFF]
+  | allTuple b => cases b <;> simp_all [Strat.usesFlag, Strat.hasWord, Strat.allFF]
+  | join b => cases b <;> simp_all [Strat.usesFlag, Strat.hasWord, Strat.allFF]
+  | anyNone => simp_all [Strat.usesFlag, Strat.hasWord, Strat.allFF]
+  | anyFF => simp_all [Strat.usesFlag]
+  | anyLF => simp_all [Strat.usesFlag]
+
+theorem Strat.anyFF_facts : Strat.anyFF.hasWord = true ∧ Strat.anyFF.allFF = false ∧ Strat.anyFF.usesFlag = false ∧
+    Strat.anyFF.noneKind = false ∧ Strat.anyFF.managed = true ∧ Strat.anyFF.isAllVec = false := by decide
+theorem Strat.anyLF_facts : Strat.anyLF.hasWord = true ∧ Strat.anyLF.allFF = false ∧ Strat.anyLF.usesFlag = false ∧
+    Strat.anyLF.noneKind = false ∧ Strat.anyLF.managed = true ∧ Strat.anyLF.isAllVec = false := by decide
+
+theorem Strat.noneKind_cases {st : Strat} (h : st.noneKind = true) :
+    st.hasWord = false ∧ st.usesFlag = false ∧ st ≠ .anyFF ∧ st ≠ .anyLF ∧ st.allFF = false := by
+  cases st with
+  | allVec b => cases b <;> simp_all [Strat.noneKind, Strat.usesFlag, Strat.hasWord, Strat.allFF]
+  | allTuple b => cases b <;> simp_all [Strat.noneKind, Strat.usesFlag, Strat.hasWord, Strat.allFF]
+  | join b => cases b <;> simp_all [Strat.noneKind, Strat.usesFlag, Strat.hasWord, Strat.allFF]
+  | anyNone => simp_all [Strat.noneKind]
+  | anyFF => simp_all [Strat.noneKind]
+  | anyLF => simp_all [Strat.noneKind]
+
+theorem head?_snoc {α : Type} (l : List α) (a : α) : (l ++ [a]).head? = if l = [] then some a else l.head? := by
+  cases l <;> simp
+
+theorem find?_snoc {α : Type} (p : α → Bool) (l : List α) (a : α) :
+    (l ++ [a]).find? p = if (l.find? p).isSome then l.find? p else (if p a then some a else none) := by
+  rw [List.find?_append]
+  cases h : l.find? p <;> simp [List.find?_cons]
+  split <;> simp_all
+
+theorem getLast?_snoc {α : Type} (l : List α) (a : α) : (l ++ [a]).getLast? = some a := by simp
+
+theorem mem_snoc {α : Type} (l : List α) (a b : α) : b ∈ l ++ [a] ↔ b ∈ l ∨ b = a := by simp
+
+theorem find?_none_of_empty {α : Type} (p : α → Bool) : ([] : List α).find? p = none := rfl
+
+theorem St3.le_cases {x y : St3} (h : x.le y = true) :
+    x = .empty ∨ (x = .error ∧ y ≠ .empty) ∨ (x = .value ∧ y = .value) := by
+  cases x <;> cases y <;> simp_all [St3.le]
 
 theorem two64_pos : 0 < two64 := by decide
 
